@@ -124,3 +124,25 @@ example : qClass [48, 46, 48, 48] = .zero ∧ qClass [49, 46, 48] = .one ∧ qCl
   decide +kernel
 
 end Negotiate
+
+namespace Negotiate
+/-- **already-compressed media types are never compressed — by class, whatever the subtype**: fonts, audio, video, and
+images other than `svg`; so `negotiate` answers identity (or 406) for them -/
+theorem never_compressed_classes (sub : Bytes) (isPdf : Bool) :
+    doCompress (s2b "font") sub isPdf = false ∧ doCompress (s2b "audio") sub isPdf = false ∧
+    doCompress (s2b "video") sub isPdf = false ∧ doCompress (s2b "*") sub isPdf = false ∧
+    (sub ≠ s2b "svg" → doCompress (s2b "image") sub isPdf = false) := by
+  have e1 : (s2b "font" != s2b "font") = false := by simp
+  have e2 : (s2b "audio" != s2b "audio") = false := by simp
+  have e3 : (s2b "video" != s2b "video") = false := by simp
+  have e4 : (s2b "*" != s2b "*") = false := by simp
+  have e5 : (s2b "image" == s2b "image") = true := by simp
+  refine ⟨?_, ?_, ?_, ?_, ?_⟩
+  · simp [doCompress, e1]
+  · simp [doCompress, e2]
+  · simp [doCompress, e3]
+  · simp [doCompress, e4]
+  · intro h
+    have : (sub == s2b "svg") = false := by simpa using h
+    simp [doCompress, e5, this]
+end Negotiate
